@@ -296,6 +296,25 @@ func (sc *specCtx) binary(e *CBin) Val {
 	case "<==>":
 		return &Term{"(= " + sc.evalBool(e.X) + " " + sc.evalBool(e.Y) + ")", SBool, nil}
 	}
+	if e.Op == "==" || e.Op == "!=" {
+		// an interior pointer (&s[i]) is never nil
+		xv, yv := sc.eval(e.X), sc.eval(e.Y)
+		_, xl := xv.(*Loc)
+		_, yl := yv.(*Loc)
+		if xl || yl {
+			other := yv
+			if yl {
+				other = xv
+			}
+			if t, ok := other.(*Term); ok && t.S == "nil" {
+				if e.Op == "!=" {
+					return &Term{"true", SBool, nil}
+				}
+				return &Term{"false", SBool, nil}
+			}
+			unsup("spec: comparison of interior pointers")
+		}
+	}
 	x, y := sc.coerce(sc.evalTerm(e.X), sc.evalTerm(e.Y))
 	isStr := (x.T != nil && isStringType(x.T)) || (y.T != nil && isStringType(y.T)) || x.Sort == SStr
 	signed := signedOf(x, y)
@@ -604,6 +623,22 @@ func (sc *specCtx) field(xv Val, name string) Val {
 			}
 		}
 		unsup("spec: no result named %s", name)
+	}
+	if loc, ok := xv.(*Loc); ok {
+		// interior pointer to a struct value (e.g. &s[i] passed to a callee)
+		s, ok := structOf(loc.T)
+		if !ok {
+			unsup("spec: field %s through interior pointer to %s", name, loc.T)
+		}
+		for i := 0; i < s.NumFields(); i++ {
+			if s.Field(i).Name() == name {
+				nl := *loc
+				nl.Path = append(append([]pathStep{}, loc.Path...), pathStep{fld: i, sort: vc.sortOf(loc.T), ct: loc.T})
+				nl.T = s.Field(i).Type()
+				return vc.loadLoc(sc.st, &nl)
+			}
+		}
+		unsup("spec: no field %s in %s", name, loc.T)
 	}
 	x, ok := xv.(*Term)
 	if !ok {
